@@ -118,6 +118,9 @@ def check_C01(o, tier):
 def check_C02(o, tier):
     o.add_audit(core.audit("C02", tier == "thorough"))
     http_check(o, tier, "C02", ["mix", "limits"], make_view(fields=("code", "dcd", "body", "ct", "cl", "crange")), RULE % "mix, limits", monitors_prefix="C02.")
+    # "... until deleted or collected", across collections and restarts
+    http_check(o, tier, "C02", ["restart", "gc"], make_view(fields=("code", "dcd", "body", "ct", "cl", "crange")), RULE % "mix, limits, restart, gc",
+               monitors_prefix="C02.", n_quick=150, n_thorough=4000)
 
 
 def check_C03(o, tier):
@@ -206,6 +209,9 @@ def extra_gc(prop):
         extra = ("C10.index-entry", "C10.index-tags") if prop == "C06" else ()
         http_check(o, tier, prop, ["gc"], make_view(fields=("code", "dcd", "body")), o.cov.get("rule", "") + " | " + RULE % "gc (HTTP level)",
                    monitors_prefix=prop + ".", n_quick=150, n_thorough=5000, extra_monitors=extra)
+        # collections of a memory store over a directory that already holds content (built by a directory store first)
+        http_check(o, tier, prop, ["rofs"], make_view(fields=("code", "dcd", "body")), o.cov.get("rule", "") + " | " + RULE % "gc, rofs (HTTP level)",
+                   monitors_prefix=prop + ".", n_quick=150, n_thorough=4000, stores=("dir",), extra_monitors=extra)
     return run
 
 
